@@ -49,6 +49,7 @@ CheckupRate<CheckupType>::CheckupRate(
 template<typename CheckupType>
 DiagnosticStatus CheckupRate<CheckupType>::evaluate(const Duration & stamp)
 {
+  std::lock_guard<std::mutex> lock(mutex_);
   double rate = rateMonitoring_.update(stamp);
 #ifdef ROMEA_CORE_COMMON_VERIF
   romea_verif_yield("CheckupRate::evaluate");
@@ -67,6 +68,7 @@ DiagnosticReport CheckupRate<CheckupType>::getReport() const
 template<typename CheckupType>
 bool CheckupRate<CheckupType>::heartBeatCallback(const Duration & stamp)
 {
+  std::lock_guard<std::mutex> lock(mutex_);
   if (rateMonitoring_.timeout(stamp)) {
 #ifdef ROMEA_CORE_COMMON_VERIF
     romea_verif_yield("CheckupRate::heartBeatCallback");
